@@ -87,6 +87,10 @@ type cursor struct {
 	// see [updateWordRIOdd]
 	isPrevWordRIOdd bool
 
+	// the rune which has the class [prevLine], that is the rune at index i-1, or,
+	// following rule LB9, the base of the combining sequence ending at index i-1
+	prevLineRune rune
+
 	prevPrevLine lineBreakClass // the Line Break Class at index i-2 (see rules LB9 and LB10 for edge cases)
 	prevLine     lineBreakClass // the Line Break Class at index i-1 (see rules LB9 and LB10 for edge cases)
 	line         lineBreakClass // the Line Break Class at index i
